@@ -11,7 +11,9 @@ NEED_SHAPES = [
     "ce_blowup<lde_blowup", "aux-segment", "ext:None", "ext:Quadratic", "ext:Cubic", "field:f64", "field:f128",
     "exemptions:2", "exemptions:>3", "through-prove+verify",
 ] + [f"values:{p}:{c}" for p in ("sum-zero", "all-zero", "all-equal", "single-nonzero", "alternating", "top-coeff-zero", "monomial")
-     for c in ("single", "small-poly", "large-poly")]
+     for c in ("single", "small-poly", "large-poly")] \
+  + [f"boundary:{seg}:{rep}:{sh}" for seg in ("main", "aux") for rep in ("single-value", "small-poly", "large-poly")
+     for sh in ("divisor-shared", "divisor-unshared")]
 
 
 def _falsify(ctx, hb, budget):
@@ -51,7 +53,9 @@ def run(ctx):
                 "coefficients assigned in (stride, first step, column) order); verify() must accept honest proofs and reject them after one OOD "
                 "constraint evaluation is changed; boundary streams enumerate every (declared degree, exemptions) pair and structured assertion values "
                 "(summing to zero, all zero, all equal, one non-zero, alternating, top coefficient zero, monomial) for 1, 2, 4, 8, 32, 64, 128 values with "
-                "zero and non-zero first step, so that vanishing coefficients of the assertion polynomials are exercised in every representation; "
+                "zero and non-zero first step, so that vanishing coefficients of the assertion polynomials are exercised in every representation, and the matrix "
+                "{main, aux segment} x {single value, small polynomial, large polynomial} x {divisor shared with a group of the other segment or not} "
+                "(auxiliary periodic / sequence assertions through a wrapper AIR around the family); "
                 "correspondence: whole evaluate(), CompositionPoly::new/evaluate_at/recombination, BoundaryConstraintGroup::evaluate_at and "
                 "TransitionConstraints::combine_evaluations against the extracted Gallina model over f64; distinct = distinct case lines")
     ctx.assumptions += [
